@@ -1,6 +1,6 @@
 (* The Q instance of the model, as the functions the runner calls. *)
 From Coq Require Import List ZArith QArith Bool.
-From SplipyModel Require Import Model.Num Model.BasisDef Model.BasisEval Model.Knots Model.Tensor Model.Obj Model.Deriv Model.KnotInsert Model.Reparam Model.Affine Model.Tol Model.StateCtx Model.Solve Model.Order Model.Split Model.Periodic Model.WF Model.Ops Model.Identical Model.Append Model.Factory Model.Interp Model.Section Model.Measure Model.Orient Model.Numbering Model.G2 Gen.CircleNets.
+From SplipyModel Require Import Model.Num Model.BasisDef Model.BasisEval Model.Knots Model.Tensor Model.Obj Model.Deriv Model.KnotInsert Model.Reparam Model.Affine Model.Tol Model.StateCtx Model.Solve Model.Order Model.Split Model.Periodic Model.WF Model.Ops Model.Identical Model.Append Model.Factory Model.Interp Model.Section Model.Measure Model.Orient Model.Numbering Model.G2 Model.EvalForms Model.Stl Model.Spl Model.Faces Model.Catalogue Gen.CircleNets.
 Import ListNotations.
 
 Definition q_basis_evaluate := @basis_evaluate Q NumQ.
@@ -66,4 +66,24 @@ Definition q_orient_compute := @orient_compute Q NumQ.
 Definition x_number_model := number_model.
 Definition q_g2_encode := @g2_encode Q NumQ.
 Definition q_g2_decode := @g2_decode Q NumQ.
+Definition q_obj_eval_grid := @obj_eval_grid Q NumQ.
+Definition q_obj_eval_pointwise := @obj_eval_pointwise Q NumQ.
+Definition q_stl_write_surface := @stl_write_surface Q NumQ.
+Definition q_stl_binary_count := @stl_binary_count Q NumQ.
+Definition q_stl_params := @stl_params Q NumQ.
+Definition q_spl_lines := @spl_lines Q NumQ.
+Definition q_spl_decode := @spl_decode Q NumQ.
+Definition x_patch_faces := patch_faces.
+Definition x_cell_numbers_model := cell_numbers_model.
+(* the abstract catalogue after adding the patches (corner vertex ids, 2^d each) in the given order:
+   node counts per dimension 0..d, the corner sets of the boundary nodes, and for every node of dimension d-1 its
+   corner set with the corner sets of its higher neighbours of dimension d *)
+Definition x_catalogue (d : nat) (ps : list (list nat)) : list nat * list (list nat) * list (list nat * list (list nat)) :=
+  let c := cat_add_all cat_empty (map (mkPatch d) ps) in
+  (map (fun i => length (cat_nodes c i)) (seq 0 (S d)),
+   map (fun n => snd (n_key n)) (cat_boundary c d),
+   map (fun n => (snd (n_key n), map snd (filter (fun h => (fst h =? d)%nat) (n_higher n)))) (cat_nodes c (d - 1))).
+Definition x_cat_lookup (d : nat) (ps : list (list nat)) (q : list nat) : option (list nat) :=
+  match cat_lookup (cat_add_all cat_empty (map (mkPatch d) ps)) (mkPatch (Nat.log2 (length q)) q) with
+  | Some n => Some (snd (n_key n)) | None => None end.
 Definition q_res_witness (e : err) : res unit := Err e.
